@@ -88,6 +88,7 @@ type Monitor struct {
 	Lock       string   // field name of the mutex
 	Protects   []string // field names
 	InsertOnly []string // protected map fields whose entries are never overwritten or deleted
+	NoDelete   []string // protected map fields whose entries are never deleted
 	Types      []string // struct types (pkg.T) whose cells are reachable only through the protected fields: unknown after re-acquisition
 	Conds      []string // T.field of condition variables whose L is this mutex
 	InvVar     string
@@ -280,6 +281,9 @@ func (cs *ContractSet) loadFile(path string) error {
 				case "insert-only":
 					mode = "i"
 					continue
+				case "no-delete":
+					mode = "d"
+					continue
 				case "types":
 					mode = "t"
 					continue
@@ -292,6 +296,8 @@ func (cs *ContractSet) loadFile(path string) error {
 					mon.Protects = append(mon.Protects, w)
 				case "i":
 					mon.InsertOnly = append(mon.InsertOnly, w)
+				case "d":
+					mon.NoDelete = append(mon.NoDelete, w)
 				case "t":
 					mon.Types = append(mon.Types, pkg+"."+w)
 				case "c":
